@@ -218,12 +218,21 @@ func (p *specParser) atom() *SpecErr {
 		if t == "[" {
 			closer = "]"
 		}
+		open := p.toks[p.i]
+		openRegion := [2]int{open.Pos, open.Pos + len(open.Text)}
 		p.i++
+		first := p.i
 		if e := p.seq(true); e != nil {
+			if p.i == first && e.Lo >= openRegion[1] && (p.i >= len(p.toks) || !startsAtom(p.toks[p.i].Typ)) {
+				// nothing usable follows the opener (empty or dangling bracket): the opener is as offending as what follows it
+				e.Also = append(e.Also, openRegion)
+			}
 			return e
 		}
 		if p.peek() != closer {
-			return p.errHere("expected closer")
+			e := p.errHere("expected closer")
+			e.Also = append(e.Also, openRegion) // an unbalanced bracket may be reported at the opener or where the closer is missing
+			return e
 		}
 		p.i++
 	case "DD":
